@@ -98,19 +98,21 @@ def gen_cases(ctx, deep=False):
                     cases.append({'db0': db0, 'progs': progs, 'sched': sched})
     two = [p for p in POOL if len(p) == 2]
     triples = list(itertools.combinations_with_replacement(range(len(two)), 3))
-    if not (ctx.thorough or deep):
+    if not ctx.thorough:
         rng = __import__('random').Random(ctx.seed * 7919 + 20)
-        triples = [(0, 0, 0)] + rng.sample(triples, 8)
+        triples = [(0, 0, 0)] + rng.sample(triples, 24 if deep else 8)
     for t in triples:
         progs = [two[x] for x in t]
         for sched in interleavings([2, 2, 2]):
             cases.append({'db0': DB_B if any(reads_b(p) for p in progs) else DB_A, 'progs': progs, 'sched': sched})
-    if ctx.thorough or deep:
-        # one triple of 3-operation programs, and incomplete schedules (sessions still open at the end)
+    if ctx.thorough:
+        # one triple of 3-operation programs
         progs = [POOL[0], POOL[0], POOL[2]]
         for sched in interleavings([3, 3, 3]):
             cases.append({'db0': DB_A, 'progs': progs, 'sched': sched})
-        for i in range(0, n, 3):
+    if True:
+        # incomplete schedules (sessions still open at the end)
+        for i in range(0, n, 3 if (ctx.thorough or deep) else 6):
             for sched in interleavings([len(POOL[i]) - 1, 2]):
                 cases.append({'db0': DB_A, 'progs': [POOL[i], POOL[1]], 'sched': sched})
     return cases
